@@ -321,10 +321,21 @@ def ctor_paths(md, cls, size=None, with_obj=False):
     od = False if cls.name == "HeaderItem" else None
 
     def run(asg):
+        if od is not None:
+            asg = dict(wellformed_magic(), **asg)
         it = md.interp(asg, opaque_default=od)
         o, st = md.fresh(it, cls, size)
         return (st, o, it) if with_obj else st
     return explore(run)
+
+
+def wellformed_magic(stream_index=0):
+    """the property quantifies over well-formed files: magic = 'dex\\n0xx\\0' (bytes 0..3 and 7 fixed)"""
+    asg = {}
+    for k, byte in ((0, 0x64), (1, 0x65), (2, 0x78), (3, 0x0A), (7, 0x00)):
+        for i in range(8):
+            asg[("s", stream_index * STREAM_SPAN + k, i)] = (byte >> i) & 1
+    return asg
 
 
 def check_layout(ctx, md, cname, item):
@@ -465,7 +476,13 @@ def check_resolvers(ctx, md):
         params = f.params()
         ctx.require(len(params) >= 2, "ClassManager.%s takes no index" % acc)
         keys = primary_keys(cmi, f, sec)
-        ctx.require(keys, "ClassManager.%s: lookup in section %s not found" % (acc, sec))
+        if not keys:
+            # the accessor does not touch its section directly: a violation unless a ClassManager helper does it for it
+            ctx.require(sec not in cm_closure(cmi, acc),
+                        "ClassManager.%s: lookup in section %s moved into a helper (shape outside the fragment)" % (acc, sec))
+            ctx.check("resolver/section", "ClassManager.%s" % acc, False, f, "ClassManager.%s sections" % acc,
+                      "ClassManager.%s must look its argument up in section %s; it reads %s" % (acc, sec, sorted(cm_closure(cmi, acc))))
+            continue
         for node, key in keys:
             good = isinstance(key, ast.Name) and key.id == params[1] and not reassigned(f, params[1])
             ctx.check("resolver/key", "ClassManager.%s" % acc, good, f, node,
@@ -718,6 +735,12 @@ def check_diff_chain(ctx, md, cls, loader):
                 if isinstance(got, Bits) and got.is_const():
                     got = got.value()
                 good = got == exp
+                if not good:
+                    op = []
+                    prov(got, opaque=op)
+                    if op or got is None:
+                        raise AnalysisError("%s: index of element %d evaluates outside the fragment: %s" % (
+                            loader.qualname, k, op[0] if op else "element is not an abstract object"))
                 ctx.check("diff-chain", "%s element %d" % (ename, k), good, loader, "%s idx of element %d" % (loader.qualname, k),
                           "%s element %d of a member list gets index %s; the format says idx_k = sum of idx_diff of elements 0..k = %s "
                           "(first element direct, reset per list)" % (ename, k, show(got), show(exp)),
@@ -846,6 +869,7 @@ def check_header_use(ctx, md):
             return super()._h_call(it, name, callee, args, kwargs, e, func)
 
     def run(asg):
+        asg = dict(wellformed_magic(), **asg)
         it = Spy(md.repo, md.folder, asg=dict(asg), construct=lambda c: c.name == "HeaderItem", inline_module=None,
                  opaque_default=False)
         o = Obj(dex, "dex")
